@@ -23,6 +23,7 @@ EXPLANATION = (
     "every path. R4 noise test: the second evaluation is at the same point with the no-record flag and the level is raised iff |y - y'| > "
     "tol_noise. R5 supplement index: a per-row log array describing the returned point must be indexed by a lookup of that point; the "
     "last-filled index qualifies only right after a recording call for that point. R6 the final re-sampling is guarded by the noisy mode and noise_final_samples > 0 only. R7 the observation appended when one final sample is taken belongs to the returned point (store-group coherence). R8 the SD an evaluation returns is the target's own. R9 branches of the optimizer that decide the noise mode read the run-time level OS[uncertainty_handling_level], never the logger's construction-time flag (an auto-detected stochastic target raises only the former). Numeric values and the quantile choice are not decided."
+    " R7 also requires a swap of the incumbent to assign all of yval / fval / fsd."
 )
 
 
